@@ -522,6 +522,32 @@ func main() {
 		rb := genRepo(r, filepath.Join(base, "proj2"), 1) // sibling sharing a name prefix
 		rc := genRepo(r, filepath.Join(base, "proj", "third_party", "nested"), 1)
 		files := append(append(append([]string{}, ra.files...), rb.files...), rc.files...)
+		// a file outside of any repository, with a malformed call of a local workflow (a ref is
+		// not allowed on a local path) and a call of a path that is a directory
+		lone := filepath.Join(base, "norepo", "lone.yaml")
+		write(lone, "on: push\njobs:\n  a:\n    uses: ./x.yml@main\n  b:\n    runs-on: ubuntu-latest\n    steps:\n      - run: echo ${{ vars.UNDEFINED_VAR }}\n")
+		files = append(files, lone)
+		// one file whose two jobs call a "workflow" that is a directory: the callee's defect is
+		// reported once per run
+		hx.Must(os.MkdirAll(filepath.Join(ra.root, ".github", "workflows", "shared"), 0o755))
+		twice := filepath.Join(ra.root, ".github", "workflows", "twice.yaml")
+		write(twice, "on: push\njobs:\n  a:\n    uses: ./.github/workflows/shared\n  b:\n    uses: ./.github/workflows/shared\n")
+		{
+			errs, err := newLinter().LintFile(twice, nil)
+			n := 0
+			for _, e := range errs {
+				if e.Kind == "workflow-call" && strings.Contains(e.Message, "shared") && (strings.Contains(e.Message, "could not read") || strings.Contains(e.Message, "error while parsing")) {
+					n++
+				}
+			}
+			sum.Evaluations++
+			sum.Dist["once_per_run_checks"]++
+			if err != nil || n != 1 {
+				sum.OracleFails = append(sum.OracleFails, failure{What: fmt.Sprintf("a callee that cannot be read is called by two jobs of ONE file: its defect is reported %d times in the run (once per run is demanded), error %v", n, err),
+					Key: fmt.Sprintf("once-per-run:single-file:%d", n), Input: "file /proj/.github/workflows/twice.yaml (two jobs, uses: ./.github/workflows/shared which is a directory)", Got: fmt.Sprint(perFile(errs, cwd()))})
+			}
+		}
+		files = append(files, twice)
 		// alone
 		alone := map[string]string{}
 		for _, f := range files {
@@ -559,6 +585,8 @@ func main() {
 			if wd != "" {
 				sum.Dist["subset_runs_with_foreign_working_dir"]++
 			}
+			cur, _ := json.Marshal(map[string]interface{}{"files": sub, "working_dir": wd, "gomaxprocs": []int{1, 4, 16}[k%3]})
+			os.WriteFile(filepath.Join(*out, "current.json"), cur, 0o644) // if a goroutine panics the driver reports this run
 			errs, err := newLinterWD(wd).LintFiles(sub, nil)
 			sum.Evaluations++
 			sum.Dist["subset_runs"]++
@@ -585,6 +613,34 @@ func main() {
 				nontrivial++
 			}
 		}
+		// the library entry point for a directory: every workflow below it, each attributed to ITS
+		// repository (a nested one included)
+		{
+			dir := filepath.Join(ra.root)
+			cur, _ := json.Marshal(map[string]interface{}{"lint_dir": dir})
+			os.WriteFile(filepath.Join(*out, "current.json"), cur, 0o644)
+			errs, err := newLinter().LintDir(dir, nil)
+			sum.Evaluations++
+			sum.Dist["lint_dir_runs"]++
+			if err != nil {
+				sum.OracleFails = append(sum.OracleFails, failure{What: "fatal error in LintDir", Key: "fatal-lintdir", Input: dir, Got: err.Error()})
+			} else {
+				got := perFile(errs, cwd())
+				for _, f := range files {
+					if !strings.HasPrefix(f, dir+string(filepath.Separator)) {
+						continue
+					}
+					if got[f] != alone[f] {
+						sum.OracleFails = append(sum.OracleFails, failure{
+							What:  "a file gets different diagnostics under LintDir(<its repository>, nil) than when linted alone",
+							Key:   "isolation-lintdir:" + classifyDiff(got[f], alone[f]),
+							Input: "file " + strings.TrimPrefix(f, base) + " under LintDir(" + strings.TrimPrefix(dir, base) + ")",
+							Got:   got[f], Want: alone[f]})
+					}
+				}
+			}
+		}
+		os.Remove(filepath.Join(*out, "current.json"))
 		if g == 0 {
 			src, _ := os.ReadFile(ra.files[1])
 			sum.Samples = append(sum.Samples, map[string]interface{}{"repository": "proj, proj2 (sibling), proj/third_party/nested", "caller0.yaml": string(src), "alone": alone[ra.files[1]]})
